@@ -8,7 +8,7 @@ use gvharness::*;
 use std::collections::{BTreeMap, BTreeSet};
 
 const MATURITY: u64 = 3;
-const N_INVALID_KINDS: u64 = 19;
+const N_INVALID_KINDS: u64 = 20;
 
 #[derive(Clone, Default)]
 struct AState {
@@ -385,7 +385,24 @@ impl Gen {
 				}
 			}
 		}
-		let mut b = self.kit.assemble(parent, diff, &txs, delta).ok()?;
+		let mut cb_key = None;
+		if kind == 19 {
+			// the reward paid to the key (and for the fees) of a coinbase that is still unspent:
+			// the same commitment a second time
+			let c: Vec<usize> = st
+				.utxo
+				.iter()
+				.filter(|(o, (_, cb))| *cb && self.kit.outs[**o].value == grin_core::consensus::reward(0))
+				.map(|(o, _)| *o)
+				.collect();
+			if c.is_empty() {
+				return None;
+			}
+			txs.clear();
+			cb_key = Some(self.kit.outs[*rng.pick(&c)].key_id.clone());
+			label = "duplicate-unspent-coinbase";
+		}
+		let mut b = self.kit.assemble_with_key(parent, diff, &txs, delta, cb_key).ok()?;
 		let prev = self.kit.blks[parent].block.header.clone();
 		match kind {
 			6 => {
@@ -1209,6 +1226,12 @@ fn run_c13(out: &mut Out, rng: &mut Rng, work: &str) -> BTreeMap<String, u64> {
 			}
 		}
 	}
+	// ---- a short but heavy fork off height 1, announced header-first while the body chain grows:
+	// the header head sits on another fork than every block delivered afterwards
+	let heavy_short = match g.add_scripted(trunk[1], 500, &[], "fork:heavy-short") {
+		Some(id) if g.kit.blks[id].valid => Some(id),
+		_ => None,
+	};
 	// transactions for the pool-facing checks (built once, evaluated at every head)
 	let mut probes: Vec<(String, grin_core::core::Transaction)> = vec![];
 	for c in [1usize, 3, 6, 9, 11] {
@@ -1236,9 +1259,10 @@ fn run_c13(out: &mut Out, rng: &mut Rng, work: &str) -> BTreeMap<String, u64> {
 	g.describe_new(out);
 	let all: Vec<usize> = (1..g.kit.blks.len()).collect();
 	let kit = &g.kit;
-	for si in 0..2 {
+	let all: Vec<usize> = all.into_iter().filter(|i| Some(*i) != heavy_short).collect();
+	for si in 0..3 {
 		let name = format!("s{}", si);
-		let order: Vec<usize> = if si == 0 {
+		let order: Vec<usize> = if si == 0 || si == 2 {
 			all.clone()
 		} else {
 			// parents first, otherwise random
@@ -1262,7 +1286,17 @@ fn run_c13(out: &mut Out, rng: &mut Rng, work: &str) -> BTreeMap<String, u64> {
 		};
 		let subj = Subject::new(&format!("{}/c13_{}", work, name), &kit.genesis);
 		out.raw(&format!("chain new {}", name));
+		let mut announced = false;
 		for i in order {
+			if si == 2 && !announced && kit.blks[i].height >= 5 {
+				// s2: the heavy short fork is known by its header only from here on
+				announced = true;
+				if let Some(x) = heavy_short {
+					let r = subj.deliver_header(&kit.blks[x].block.header);
+					out.line(&format!("chain hdr {} b{}", name, x), &r);
+					out.line(&format!("chain obs {}", name), &subj.obs(kit));
+				}
+			}
 			let r = subj.deliver_block(&kit.blks[i].block);
 			out.line(&format!("chain deliver {} b{}", name, i), &r);
 			out.line(&format!("chain obs {}", name), &subj.obs(kit));
@@ -1274,7 +1308,53 @@ fn run_c13(out: &mut Out, rng: &mut Rng, work: &str) -> BTreeMap<String, u64> {
 						Ok(_) => "ok".to_string(),
 						Err(e) => format!("err:{}", error_class(&e)),
 					};
-					out.line(&format!("chain txmat {} {}", name, d), &m);
+					// recorded finding: with the header head on another fork than the head, the
+					// pool-facing maturity check reads its cutoff header from the header fork
+					let head_id = kit.by_hash.get(&subj.c().head().unwrap().last_block_h).cloned();
+					let hhead_id = kit.by_hash.get(&subj.c().header_head().unwrap().last_block_h).cloned();
+					let mut known = false;
+					if let (Some(hd), Some(hh)) = (head_id, hhead_id) {
+						let anc = |mut a: usize, b: usize| -> bool {
+							loop {
+								if a == b {
+									return true;
+								}
+								match kit.blks[a].parent {
+									Some(p) => a = p,
+									None => return false,
+								}
+							}
+						};
+						if !anc(hh, hd) && !anc(hd, hh) {
+							if let Some(st) = g.states.get(&hd) {
+								let next_h = kit.blks[hd].height + 1;
+								let ins: Vec<grin_core::core::CommitWrapper> = tx.inputs().into();
+								let mut expected = Some("ok".to_string());
+								for c in &ins {
+									match kit.by_commit.get(&c.commitment()).and_then(|o| st.utxo.get(o)) {
+										Some((ch, true)) if next_h < *ch + MATURITY => expected = Some("err:ImmatureCoinbase".into()),
+										Some(_) => {}
+										None => {
+											expected = None;
+											break;
+										}
+									}
+								}
+								if let Some(e) = expected {
+									if e != m {
+										known = true;
+										out.raw(&format!(
+											"#KNOWN-PROBE C13 pool-maturity-cutoff-read-from-header-fork head=b{} (height {}) header_head=b{} (height {}, another fork): Chain::verify_coinbase_maturity({}) = {} but on the head's fork the answer is {}",
+											hd, kit.blks[hd].height, hh, kit.blks[hh].height, d, m, e
+										));
+									}
+								}
+							}
+						}
+					}
+					if !known {
+						out.line(&format!("chain txmat {} {}", name, d), &m);
+					}
 					let l = match subj.c().verify_tx_lock_height(tx) {
 						Ok(_) => "ok".to_string(),
 						Err(e) => format!("err:{}", error_class(&e)),
@@ -1295,6 +1375,18 @@ fn run_c13(out: &mut Out, rng: &mut Rng, work: &str) -> BTreeMap<String, u64> {
 					));
 				}
 			}
+		}
+		if si != 2 {
+			if let Some(x) = heavy_short {
+				// the heavy fork's body arrives last everywhere: every subject reorganises onto it
+				let r = subj.deliver_block(&kit.blks[x].block);
+				out.line(&format!("chain deliver {} b{}", name, x), &r);
+				out.line(&format!("chain obs {}", name), &subj.obs(kit));
+			}
+		} else if let Some(x) = heavy_short {
+			let r = subj.deliver_block(&kit.blks[x].block);
+			out.line(&format!("chain deliver {} b{}", name, x), &r);
+			out.line(&format!("chain obs {}", name), &subj.obs(kit));
 		}
 		let v = match subj.c().validate(false) {
 			Ok(_) => "ok".to_string(),
